@@ -1,5 +1,6 @@
 From Coq Require Import ZArith List String Bool.
 From FV Require Import Base.Ser Base.Res C07.Model.
+From FV Require C07.ModelLig.
 Import ListNotations.
 Open Scope string_scope.
 Definition closure_reg (ls : list subst) (s : list glyph) : option (list glyph) := closure (S (S (List.length s + List.length (List.concat (List.concat (map (map snd) ls)))))) ls s.
@@ -20,6 +21,8 @@ Definition reg : registry := [
   ("apply_seq", run2 apply_seq);
   ("classdef_subset", run3 classdef_subset);
   ("varstore_subset", run4 varstore_subset);
-  ("closure_gsub", run4 closure_gsub_reg)
+  ("closure_gsub", run4 closure_gsub_reg);
+  ("subset_lig", run2 ModelLig.subset_lig);
+  ("shape_lig", run2 ModelLig.shape_lig)
 ].
 Definition fv_entry := dispatch reg.
